@@ -18,6 +18,9 @@ from sympy.utilities.lambdify import lambdify
 
 from formak import common
 
+# Checked, see common.simplify
+simplify = common.simplify
+
 DEFAULT_MODULES = ("scipy", "numpy", "math", {"sec": lambda v: 1.0 / np.cos(v)})
 
 
